@@ -811,7 +811,25 @@ def lab_run(ctx, s, prefix, cli_bin, runner_bin):
             noise = subprocess.Popen(['ip', 'netns', 'exec', tracer, 'python3', '-c', BIGPING, req['hostname']], stdout=subprocess.DEVNULL, stderr=subprocess.DEVNULL)
             _t.sleep(0.2)
         t0 = _t.time()
-        q = subprocess.run(['timeout', '60'] + cmd, stdout=subprocess.PIPE, stderr=subprocess.PIPE, text=True, errors='replace')
+        if s.get('renumber') and not s['cli']:
+            # one process, two identical requests; in between the tracer gets another address (and r1 learns it)
+            pr = subprocess.Popen(['timeout', '90'] + cmd + ['twice'], stdin=subprocess.PIPE, stdout=subprocess.PIPE, stderr=subprocess.PIPE, text=True, errors='replace')
+            first = pr.stdout.readline()
+            dev0, dev1 = prefix + 'a0', prefix + 'b0'
+            mac = vt.sh(['ip', 'netns', 'exec', tracer, 'cat', '/sys/class/net/%s/address' % dev0]).stdout.strip()
+            vt.sh(['ip', '-n', tracer, 'addr', 'del', '10.100.0.1/24', 'dev', dev0])
+            vt.sh(['ip', '-n', tracer, 'addr', 'add', '10.100.0.3/24', 'dev', dev0])
+            vt.sh(['ip', '-n', tracer, 'route', 'replace', 'default', 'via', '10.100.0.2'])
+            vt.sh(['ip', '-n', tracer, 'neigh', 'replace', '10.100.0.2', 'lladdr', vt.sh(['ip', 'netns', 'exec', prefix + 'n1', 'cat', '/sys/class/net/%s/address' % dev1]).stdout.strip(), 'dev', dev0, 'nud', 'permanent'])
+            vt.sh(['ip', '-n', prefix + 'n1', 'neigh', 'del', '10.100.0.1', 'dev', dev1])
+            vt.sh(['ip', '-n', prefix + 'n1', 'neigh', 'replace', '10.100.0.3', 'lladdr', mac, 'dev', dev1, 'nud', 'permanent'])
+            so, se = pr.communicate('go\n')
+            class _Q: pass
+            q = _Q(); q.returncode = pr.returncode; q.stdout = so; q.stderr = se
+            if 'FIRST-DONE' not in first:
+                q.stdout = first + so
+        else:
+            q = subprocess.run(['timeout', '60'] + cmd, stdout=subprocess.PIPE, stderr=subprocess.PIPE, text=True, errors='replace')
         elapsed_ms = int((_t.time() - t0) * 1000)
         # 'repeat': the same invocation again and again; the first one that fails or loses a hop is the outcome
         def _shape(x):
